@@ -358,10 +358,17 @@ mark(9);`
 // class) before the first one is thrown changes neither what the handler sees nor what the
 // objects report afterwards; a non-string message is a value, not a crash.
 func H_messages() {
-	names := []string{"E1", "E2", "E3", "Exception"}
-	x, y := symx.Choose("first", 4), symx.Choose("second", 4)
+	// E5 has a constructor of its own that never calls the parent's: its objects carry no message
+	names := []string{"E1", "E2", "E3", "Exception", "E5"}
+	x, y := symx.Choose("first", 5), symx.Choose("second", 5)
 	third := symx.Choose("third", 3) // 0 none, 1 a third object built inside the handler, 2 an int message
-	src := classes + `
+	msgOf := func(k int, m string) string {
+		if k == 4 {
+			return ""
+		}
+		return m
+	}
+	src := classes + `class E5 extends Exception { public $id = 0; function __construct($id) { $this->id = $id; } }
 $x = new ` + names[x] + `("a");
 $y = new ` + names[y] + `("b");
 try { throw $x; }
@@ -383,7 +390,7 @@ mark(9);`
 	if ctl != nil {
 		return
 	}
-	want := []sx.Obs{{Kind: 's', S: "a"}, {Kind: 'M', I: 2}, {Kind: 's', S: "a"}, {Kind: 's', S: "b"}, {Kind: 'M', I: 9}}
+	want := []sx.Obs{{Kind: 's', S: msgOf(x, "a")}, {Kind: 'M', I: 2}, {Kind: 's', S: msgOf(x, "a")}, {Kind: 's', S: msgOf(y, "b")}, {Kind: 'M', I: 9}}
 	symx.Assert(len(sx.Log) == len(want), "messages: trace length")
 	if len(sx.Log) != len(want) {
 		return
